@@ -21,6 +21,15 @@ func (a *Analyzer) effectsOf(id string, roots map[string]*Term, split bool, assu
 	return out, w.Undecided
 }
 
+// isTableKey: an element of the list of the context table's keys that a helper collected (a filtered copy of the keys).
+func isTableKey(t *Term) bool {
+	if t.Op != "elem" || len(t.Args) != 1 || t.Args[0].Op != "filter" || len(t.Args[0].Args) != 3 {
+		return false
+	}
+	f := t.Args[0]
+	return f.Args[1].Op == "bound" && f.Args[1].Name == "k" && strings.Contains(f.Args[0].Key(), "field:hvToContext(this:state.ViewContexts)")
+}
+
 func runRegistry(a *Analyzer, r *Results) {
 	pr := props("C15")
 	vc := This("state.ViewContexts")
@@ -153,7 +162,7 @@ func runRegistry(a *Analyzer, r *Results) {
 				// the cancelled entry's key is older than hv
 				ok := false
 				for _, b := range ev.Find(Truth(older(Var("k"), hv))) {
-					if b["k"].Op == "mapkey" || strings.Contains(b["k"].Key(), "mapkey") {
+					if b["k"].Op == "mapkey" || strings.Contains(b["k"].Key(), "mapkey") || isTableKey(b["k"]) {
 						ok = true
 					}
 				}
@@ -162,7 +171,8 @@ func runRegistry(a *Analyzer, r *Results) {
 				nDel++
 				ok := false
 				for _, b := range ev.Find(Truth(older(Var("k"), hv))) {
-					if ev.Same(b["k"], ev.Arg(1)) || strings.Contains(ev.Arg(1).Key(), "mapkey") && strings.Contains(b["k"].Key(), "mapkey") {
+					if ev.Same(b["k"], ev.Arg(1)) || strings.Contains(ev.Arg(1).Key(), "mapkey") && strings.Contains(b["k"].Key(), "mapkey") ||
+						(isTableKey(b["k"]) && b["k"].Key() == ev.Arg(1).Key()) {
 						ok = true
 					}
 				}
